@@ -12,9 +12,9 @@ for id in "$@"; do
   git -C /repo worktree add -q --detach $wt HEAD || exit 2
   mkdir -p /tmp/seed/out/$tag
   /usr/bin/python3 - "$here" "$id" "$wt" "/tmp/seed/out/$tag" "$n" > /tmp/seed/prompts/$tag.txt <<'EOF'
-import sys
+import os, sys
 here, pid, wt, out, n = sys.argv[1:]
-t = open(f'{here}/PROMPT.tmpl').read()
+t = open(f"{here}/" + os.environ.get("SEED_TMPL", "PROMPT.tmpl")).read()
 p = open(f'{here}/{pid}.prop.txt').read()
 print(t.replace('__WT__', wt).replace('__OUT__', out).replace('__N__', n).replace('__PROP__', p))
 EOF
